@@ -438,7 +438,7 @@ pub fn run(ctx: &mut Ctx) {
         // central directory offset on the grid: one record of 42 bytes ends at t
         layouts.push(Layout { start: t - 42, entries: vec![small("a")], comment: false, cpython: true });
     }
-    let quick_sizes: Vec<(u64, bool, u16)> = vec![(G + 1, true, 0), (G + 1, false, 0)];
+    let quick_sizes: Vec<(u64, bool, u16)> = vec![(G + 1, true, 0), (G + 1, false, 0), (G + 1, false, 8)];
     let mut thorough_sizes: Vec<(u64, bool, u16)> = Vec::new();
     for s in [G - 2, G - 1, G, G + 1, 5 << 30] {
         for large in [true, false] {
@@ -447,6 +447,8 @@ pub fn run(ctx: &mut Ctx) {
     }
     thorough_sizes.push((5 << 30, true, 8));
     thorough_sizes.push((G - 1, true, 8));
+    thorough_sizes.push((G + 1, false, 8));
+    thorough_sizes.push((5 << 30, false, 8));
     let sizes = ctx.q(quick_sizes, thorough_sizes);
     for (s, large, m) in sizes {
         layouts.push(Layout { start: 0, entries: vec![small("a"), ("big".into(), s, large, m), small("z")], comment: true, cpython: true });
